@@ -133,8 +133,11 @@ def run(res, tier, seed, search):
                 "recorded set_num_threads calls); distinct = (scenario, n_jobs, entry count)")
     maxt = numba.config.NUMBA_NUM_THREADS
     starts = [maxt, max(1, maxt // 2)] if tier == "quick" and not search else [maxt, max(1, maxt // 2), 4]
-    for start in starts:
+    light = ("ok-dense", "ok-dense-compressed", "fail-init-graph-size", "fail-sparse-unsupported-metric", "ok-dense-prepare")
+    for si, start in enumerate(starts):
         for name, nj, thunk in scenarios(rng, tier):
+            if tier == "quick" and not search and si > 0 and name not in light:
+                continue        # quick tier: the lowered entry count only for the cheap scenarios (each prepare() compiles a closure)
             run_one(res, name, nj, thunk, min(start, maxt))
     _real_set(maxt)
 
